@@ -256,4 +256,6 @@ Definition ok (c : %s) : bool :=
     nontrivial=lambda c, o: sum(1 for i in range(len(c['pts']) - 1) if c['pts'][i] != c['pts'][i + 1]) >= 2,
     klass=lambda c, o: 'n=%d' % len(c['pts']))
 
-STREAMS = [S_SEGMENT, S_VERTICAL, S_POLY]
+# the distance to a single segment without the projected point (util.geometry.distance_to_segment): the stream is defined with C16, whose simplifiers call it
+from props.C16 import S_DS
+STREAMS = [S_SEGMENT, S_VERTICAL, S_POLY, S_DS]
